@@ -115,7 +115,10 @@ def generate(seed, scratch, nvariants=3, hashseeds=None):
         src = rs.choice(srcs)
         for j in range(rs.randint(1, 3)):
             d = rs.choice(["", "d1", "d2", "inc1", "sub/deep"])
-            name = f"copy{k}_{j}" + os.path.splitext(src)[1]
+            ext = os.path.splitext(src)[1]
+            if rs.random() < 0.2:
+                ext = rs.choice([".F90", ".h", ".cpp"])     # the same bytes under a name that selects another front end
+            name = f"copy{k}_{j}" + ext
             p = os.path.join(world["root"], d, name) if d else os.path.join(world["root"], name)
             files[p] = copy.deepcopy(files[src])
             files[p]["copy_of"] = src
